@@ -35,9 +35,11 @@ def _json_default(o):
 
 def load_findings():
     p = os.path.join(ROOT, "known_findings.json")
-    if not os.path.exists(p):
-        return []
-    return json.load(open(p))["findings"]
+    res = json.load(open(p))["findings"] if os.path.exists(p) else []
+    extra = os.environ.get("VERIF_EXTRA_FINDINGS")  # builders' test aid only; never set by registered commands
+    if extra and os.path.exists(extra):
+        res += json.load(open(extra))["findings"]
+    return res
 
 
 class Ctx:
